@@ -437,7 +437,7 @@ func execPm(ops []Op) []string {
 		mu.Lock()
 		defer mu.Unlock()
 		return out
-	case <-time.After(pmTimeout):
+	case <-hangAfter(pmTimeout):
 		return []string{"X timeout " + opsToStrings(ops)[0] + " => no reply within " + pmTimeout.String()}
 	}
 }
